@@ -174,4 +174,22 @@ example : payload [[1, 2], [], [3]] = [1, 2, 3] := by decide
 example : packets [[1, 2], [], [3]] = [[1, 2, 3]] := by
   rw [packets_eq_chunks, chunks_of_short] <;> simp [payload, packetMax]
 
+/-- "…however the source reader delivers it": also a source that FAILS (F70). Whatever it delivered before — any chunks —
+    `Encrypt` returns its error, seals nothing and counts no frame: the peer is never sent the part of a message as if it
+    were the message; and a source that does not fail is encrypted as before. -/
+theorem failing_source_seals_nothing (C : Crypto) (s : Sess) (chunks : Reader) :
+    encryptF C s ⟨chunks, true⟩ = (s, none) ∧
+    encryptF C s ⟨chunks, false⟩ = ((encrypt C s chunks).1, some (encrypt C s chunks).2) := by
+  simp [encryptF]
+
+/-- F70 before the repair (`encryptFOld`): the source fails after 500 of its bytes; no error is reported, and the peer
+    decrypts an authentic message of exactly those 500 bytes. -/
+theorem failing_source_unfixed_refuted (C : Crypto) (hC : C.Correct) (s peer : Sess)
+    (hk : peer.decKey = s.encKey) (hc : peer.decCnt = s.encCnt) :
+    ∃ r : FReader, r.fails = true ∧ ∃ out, (encryptFOld C s r).2 = some out ∧
+      (decrypt C peer out).2.1 = .ok (List.replicate 500 7) := by
+  refine ⟨⟨[List.replicate 500 7], true⟩, rfl, _, rfl, ?_⟩
+  rw [roundtrip C hC s peer [List.replicate 500 7] hk hc]
+  simp only [payload, List.flatten_cons, List.flatten_nil, List.append_nil]
+
 end Hc.Props.C06
